@@ -162,7 +162,7 @@ func c09Word(cfg muxCfg, word string) []wunit {
 				if u.RA && u.Params == 0 && (word != "params-nonra" || i == 0) {
 					u.Params = 1
 				}
-				if t.Kind == "h264b" {
+				if isH264B(t.Kind) {
 					// decode order I M b M b ...: an "M" frame is displayed after the "b" frame written right after it
 					d := step * clock / 1000
 					switch {
@@ -244,7 +244,7 @@ func c09Harness(sc c09Scen) vsched.Harness {
 					}
 					if sc.Cfg.Tracks[u.Track].video() {
 						dts := u.DTS
-						if sc.Cfg.Tracks[u.Track].Kind == "h264b" {
+						if isH264B(sc.Cfg.Tracks[u.Track].Kind) {
 							// the decode time the written PTS / picture order counts imply (every word starts with a key frame)
 							if st.ext == nil {
 								st.ext = &h264.DTSExtractor{}
@@ -405,7 +405,7 @@ func c09Harness(sc c09Scen) vsched.Harness {
 				if strings.HasPrefix(wantKind, "aac") {
 					wantKind = "aac"
 				}
-				if wantKind == "h264b" {
+				if isH264(wantKind) {
 					wantKind = "h264"
 				}
 				if kind != wantKind {
@@ -597,7 +597,7 @@ func c09Harness(sc c09Scen) vsched.Harness {
 						}
 						deltas := []int64{0}
 						lt := cfg.Tracks[leadTi]
-						if lt.Kind == "h264b" {
+						if isH264B(lt.Kind) {
 							// all streams are cut at the same instant and carry the leading stream's PROGRAM-DATE-TIME: "the first unit
 							// of the unit's segment" is the leading-track key frame that opened the aligned segment (the reading C10
 							// spells out: "offset from that segment's first leading-track unit")
@@ -632,7 +632,7 @@ func c09Harness(sc c09Scen) vsched.Harness {
 
 func c09DataEqual(kind string, got, want [][]byte) bool {
 	switch kind {
-	case "h264", "h264b":
+	case "h264", "h264b", "h264k", "h264bk":
 		return dataEqual(stripAUD(got), want)
 	case "av1":
 		return dataEqual(av1StripSizes(got), want)
@@ -684,7 +684,9 @@ func c09Scens(tier string) []c09Scen {
 		mcfg("fmp4", false, 3, "h264b"),
 		mcfg("ll", false, 7, "aac44", "h264b"),
 		func() muxCfg { c := mcfg("fmp4", false, 3, "vp9"); c.ParamDelta = "width+fullrange"; return c }(),
-		mcfg("fmp4", false, 3, "h264", "aacsbr"), // HE-AAC: the track's clock and timescale are the core rate
+		mcfg("fmp4", false, 3, "h264", "aacsbr"),    // HE-AAC: the track's clock and timescale are the core rate
+		mcfg("mpegts", false, 3, "h264bk", "aac44"), // reordered H264 on a millisecond clock (MPEG-TS rescales)
+		mcfg("mpegts", false, 3, "h264k"),
 	}
 	for i := range cfgs {
 		if cfgs[i].Variant == "ll" {
@@ -705,14 +707,14 @@ func c09Scens(tier string) []c09Scen {
 				if !hasVideo && word != "regular" {
 					continue
 				}
-				if cfg.Tracks[cfg.leading()].Kind == "h264b" && word == "params" {
+				if isH264B(cfg.Tracks[cfg.leading()].Kind) && word == "params" {
 					continue
 				}
 				segLen := 1000
 				if word == "sparse" {
 					segLen = 1750
 				}
-				if cfg.Tracks[cfg.leading()].Kind == "h264b" {
+				if isH264B(cfg.Tracks[cfg.leading()].Kind) {
 					// I M b M | I ...: a GOP spans 1250 ms of presentation time but the derived decode time of its key frame lags,
 					// so a segment holds two GOPs
 					segLen = 2500
